@@ -777,8 +777,16 @@ func siblingCallSite(name string, expected map[string]bool) bool {
 	if m == nil {
 		return false
 	}
+	callee := func(prefix string) string {
+		if i := strings.Index(prefix, ".call."); i >= 0 {
+			return prefix[i:]
+		}
+		return prefix
+	}
 	for e := range expected {
-		if em := callSiteRe.FindStringSubmatch(e); em != nil && em[1] == m[1] && em[3] == m[3] {
+		// the same precondition of the same contracted callee, discharged at another call site (in this or in
+		// another function under contract)
+		if em := callSiteRe.FindStringSubmatch(e); em != nil && callee(em[1]) == callee(m[1]) && em[3] == m[3] {
 			return true
 		}
 	}
